@@ -93,6 +93,12 @@ def spec(tier, seed):
         if s[0] and s[1]:
             for op in ops.OPS_H:
                 units.append(("C01.step", {"shape": s, "op": op, "P": P, "strl": True}))
+    # third label mode: an existing edge already carries the tuple id that merging the
+    # first two edges under rename="tuple" would produce
+    for s in shapes.shapes_H(1, 3) + shapes.shapes_H(2, 3):
+        for op in ("merge_duplicate_edges", "cleanup", "add_edge", "remove_edge"):
+            if op in ops.OPS_H:
+                units.append(("C01.step", {"shape": s, "op": op, "P": P, "strl": "idtuple"}))
     for k in ("empty", "list", "dict", "hypergraph"):
         units.append(("C01.base", {"kind": k, "shape": None}))
     units.append(("C01.numeric", {"cls": "H", "shape": None, "op": "numeric ids"}))
